@@ -281,6 +281,11 @@ def white_case(draw):
     length = ref.n_pairs(n)
     sk = draw(st.sampled_from(['none', 'vector', 'vector', 'matrix', 'matrix']))
     sigma = None if sk == 'none' else draw(U.sigma_vector(n) if sk == 'vector' else U.sigma_matrix(n))
+    if sigma is not None:
+        # 'all SPD matrices' includes covariances in small or large units (e.g. volt^2): an exact
+        # power-of-two rescaling of sigma_k, which the whitened measures are invariant to
+        expo = draw(st.sampled_from([0, 0, 0, -30, -60, 20]))
+        sigma = (np.array(sigma, dtype=float) * 2.0 ** expo).tolist()
     return dict(method=method, n_cond=n, kind=kind, sigma=sigma,
                 v1=draw(U.vectors(n1, length, kind)), v2=draw(U.vectors(n2, length, kind)),
                 form1=forms_for(draw, n1), form2=forms_for(draw, n2),
@@ -317,6 +322,9 @@ def classify_white(case):
     labels = base_labels(case)
     sk = sigma_kind(case['sigma'])
     labels.append('sigma:' + sk)
+    if sk != 'none':
+        mx = float(np.max(np.abs(np.array(case['sigma'], dtype=float))))
+        labels.append('sigma-scale:' + ('tiny' if mx < 1e-6 else 'huge' if mx > 1e4 else 'unit'))
     ident = sk == 'none' or (sk == 'vector' and len(set(case['sigma'])) == 1)
     labels.append('sigma-identity-like' if ident else 'sigma-non-identity')
     return labels, (not ident) or len(case['v1']) != len(case['v2'])
